@@ -1351,6 +1351,22 @@ func (x *Exec) ghostAssignedInHooks(fc *FuncContract, name string) bool {
 
 // bindLoopVars exposes range-loop ghost state to invariants: $visited (map ranges).
 func (x *Exec) bindLoopVars(env *Env, st *State, fr *Frame, hdr *ssa.BasicBlock) {
+	// range-over-slice loops keep a hidden index of the last completed iteration (-1 before the first):
+	// idx (this loop) and idxN (loop N) expose it to invariants
+	for _, h := range fr.loops.headers {
+		for _, ins := range h.Instrs {
+			if s, ok := ins.(*ssa.Store); ok {
+				if a, ok := s.Addr.(*ssa.Alloc); ok && a.Comment == "rangeindex" {
+					if v, ok := fr.cells[a]; ok {
+						env.vars[fmt.Sprintf("idx%d", fr.loops.ordinal[h])] = v
+						if h == hdr {
+							env.vars["idx"] = v
+						}
+					}
+				}
+			}
+		}
+	}
 	for _, b := range fr.fn.Blocks {
 		if !fr.loops.body[hdr][b] {
 			continue
